@@ -261,7 +261,62 @@ impl Property for C18 {
                         return Ok(());
                     }
                 };
-                recovered.driver.close()?;
+                // Every 4th crash point strictly inside a call (and always when replaying): after the recovery, each OTHER
+                // queue gets one more record, and the log is restarted once more — what the torn call of one queue left
+                // behind must not make another queue's next record disappear.
+                let probe = ctx.class.strictly_inside_op()
+                    && (selection.only.is_some() || mix(history_hash, hash64(&ctx.point)) % 4 == 0);
+                let mut probe_failure: Option<(String, String)> = None;
+                if probe {
+                    let others: Vec<String> = recovered
+                        .state
+                        .keys()
+                        .filter(|name| inflight_target.as_deref() != Some(name.as_str()))
+                        .cloned()
+                        .collect();
+                    let mut appended: Vec<(String, u64, Vec<u8>)> = Vec::new();
+                    {
+                        let log = recovered.driver.log.as_mut().unwrap();
+                        for (idx, name) in others.iter().enumerate() {
+                            let payload = crate::util::fill(0xC18 ^ idx as u64, 24 + idx, 0);
+                            let outcome = crate::util::guarded(|| log.append_record(name, None, &payload[..]));
+                            if let Ok(Ok(outcome)) = outcome {
+                                if let Some(pos) = outcome.last_position {
+                                    appended.push((name.clone(), pos, payload));
+                                }
+                            }
+                        }
+                    }
+                    let _ = recovered.driver.tracer.feed(mrecordlog::verif_hooks::take_events());
+                    recovered.driver.close()?;
+                    if !appended.is_empty() {
+                        env.class("crash:probe-other-queues-then-restart");
+                        match crate::recover::recover_dir(&crash_dir, case.policy) {
+                            Ok(mut second) => {
+                                second.driver.close()?;
+                                for (name, pos, payload) in &appended {
+                                    let found = second.state.get(name).and_then(|queue| queue.recs.iter().find(|(other, _)| other == pos));
+                                    let ok = found.map_or(false, |(_, bytes)| bytes[..] == payload[..]);
+                                    if !ok {
+                                        probe_failure = Some((name.clone(), format!("the record appended to {name:?} at position {pos} right after the recovery is gone (or altered) after one more restart")));
+                                        break;
+                                    }
+                                }
+                            }
+                            Err(crate::recover::RecoverError::Engine(msg)) => return Err(CaseError::Engine(msg)),
+                            Err(_) => env.class("crash:second-open-failed-skipped"),
+                        }
+                    }
+                } else {
+                    recovered.driver.close()?;
+                }
+                if let Some((name, msg)) = probe_failure {
+                    return Err(exec.failure(
+                        format!("{where_}: {msg}"),
+                        "other-queue-loses-record-after-recovery",
+                        json!({"crash": {"k": ctx.point.k, "b": ctx.point.b}, "queue": name}),
+                    ));
+                }
                 let unlinks_in_call = inflight.map_or(false, |op| unlinking_ops.contains(&op));
                 for name in &touched {
                     if inflight_target.as_deref() == Some(name.as_str()) {
